@@ -8,7 +8,7 @@
     payload bytes and (a superset of) all valid-UTF-8 strings.  Library behaviour enters only as
     an explicit, pointwise hypothesis of the round-trip theorems. *)
 From WM Require Import Base.Prelude Message.Model Value.Model Value.Codec Value.Json Value.ToyCodec
-  Value.EqualsProofs Value.CodecProofs Value.StoreProofs Value.JsonProofs Value.ToyProofs Value.CrossProofs Value.Reuse Value.ReuseProofs.
+  Value.EqualsProofs Value.CodecProofs Value.StoreProofs Value.JsonProofs Value.ToyProofs Value.CrossProofs Value.Reuse Value.ReuseProofs Value.Scan Value.ScanProofs Value.Sorted Value.SortedProofs Value.JsonInt Value.JsonIntProofs.
 
 (** * Equals *)
 
@@ -371,6 +371,54 @@ Theorem C16_cqrs_roundtrip_reused_target_merging_refuted :
     /\ proto_unmarshal_into (list N) vdec_into true prev m <> Ok v.
 Proof. exact roundtrip_reused_merging_refuted. Qed.
 
+(** * Round "proofs 2": the object framing is scanned in Gallina — nothing about encoding/json is assumed any more *)
+
+(** the scanner splits every object made of string literals, null and one-level objects of those
+    back into the member texts it was built from *)
+Theorem C16_unframe_frame : forall ms, top_members ms -> unframe_std (frame_obj ms) = Some ms.
+Proof. exact unframe_frame. Qed.
+
+(** so the former assumption [framing_ok] holds of the scanner for every envelope *)
+Theorem C16_framing_discharged : forall e, bytes_ok (pl_bytes (e_payload e)) -> framing_ok unframe_std e.
+Proof. exact framing_std. Qed.
+
+(** unwrap after wrap, closed: valid-UTF-8 destination / UUID / metadata, any payload bytes
+    (nil-ness kept), duplicate-free metadata — no hypothesis about a library *)
+Theorem C16_envelope_roundtrip_closed : forall nu dest m w, envelope_ok (env_of dest m) ->
+  wrap jenc_env nu dest m = Ok w -> unwrap (jdec_env unframe_std) w = Ok (dest, m).
+Proof. exact envelope_roundtrip_closed. Qed.
+
+Theorem C16_envelope_identity : forall nu dest m, dest <> [] -> envelope_ok (env_of dest m) ->
+  exists w, wrap jenc_env nu dest m = Ok w /\ unwrap (jdec_env unframe_std) w = Ok (dest, m).
+Proof. exact envelope_identity. Qed.
+
+Theorem C16_publisher_roundtrip_closed : forall nu cfg inner_ok dest ms ft ws,
+  (forall m, In m ms -> envelope_ok (env_of dest m)) ->
+  fwd_publish jenc_env nu cfg inner_ok dest ms = Ok (ft, ws) ->
+  ft = (if str_eqb cfg [] then default_forwarder_topic else cfg)
+  /\ map (unwrap (jdec_env unframe_std)) ws = map (fun m => Ok (dest, m)) ms.
+Proof. exact publisher_roundtrip_closed. Qed.
+
+(** with map entries written in Go's order (sorted by key, byte-wise) the round trip returns the
+    canonical form of the message: same UUID, payload, nil-ness, metadata lookups *)
+Theorem C16_envelope_roundtrip_sorted : forall nu dest m w, envelope_ok (env_of dest m) ->
+  wrap jenc_sorted nu dest m = Ok w -> unwrap (jdec_env unframe_std) w = Ok (dest, canon_msg m).
+Proof. exact envelope_roundtrip_sorted. Qed.
+Theorem C16_envelope_roundtrip_sorted_same_value : forall nu dest m w, envelope_ok (env_of dest m) ->
+  wrap jenc_sorted nu dest m = Ok w ->
+  exists m', unwrap (jdec_env unframe_std) w = Ok (dest, m') /\ same_value m m'
+    /\ payload m' = payload m /\ (meta m = None <-> meta m' = None).
+Proof. exact envelope_roundtrip_sorted_same_value. Qed.
+
+(** integers are read back from their JSON text (decimal, as strconv writes it), so the reply
+    marshaler's round trip is closed for integer results as well *)
+Theorem C16_json_int_roundtrip : forall z, dec_int (enc_int z) = Some z.
+Proof. exact dec_int_enc_int. Qed.
+Theorem C16_reply_roundtrip_int : forall nu (p : rparams Z) m,
+  marshal_reply Z (fun r => Some (Some (enc_int r))) nu p = Ok m ->
+  unmarshal_reply Z dec_int m = Ok (Rep Z (p_result Z p) (p_err Z p)).
+Proof. exact reply_roundtrip_int. Qed.
+
 Print Assumptions C16_equals_iff.
 Print Assumptions C16_equals_iff_refuted.
 Print Assumptions C16_equals_symmetric_refuted.
@@ -421,6 +469,18 @@ Print Assumptions C16_cqrs_proto_roundtrip_reused_target.
 Print Assumptions C16_cqrs_json_roundtrip_reused_target.
 Print Assumptions C16_cqrs_gogo_roundtrip_reused_target.
 Print Assumptions C16_cqrs_roundtrip_reused_target_merging_refuted.
+
+Print Assumptions C16_unframe_frame.
+Print Assumptions C16_framing_discharged.
+Print Assumptions C16_envelope_roundtrip_closed.
+Print Assumptions C16_envelope_identity.
+Print Assumptions C16_publisher_roundtrip_closed.
+
+Print Assumptions C16_envelope_roundtrip_sorted.
+Print Assumptions C16_envelope_roundtrip_sorted_same_value.
+
+Print Assumptions C16_json_int_roundtrip.
+Print Assumptions C16_reply_roundtrip_int.
 
 (** * Non-vacuity *)
 
@@ -488,3 +548,13 @@ Example C16_witness_json :
      = [34; 92; 34; 92; 110; 92; 117; 50; 48; 50; 56; 92; 117; 102; 102; 102; 100; 34]%N
   /\ b64enc [0; 1; 2; 3; 4; 5]%N = [65; 65; 69; 67; 65; 119; 81; 70]%N.
 Proof. vm_compute. repeat split. Qed.
+
+(** the closed round trip computes: wrap, then scan + decode, on a message with escapes, a 4-byte
+    code point in a metadata key and a binary payload *)
+Example C16_witness_closed :
+  let m := Msg [34; 10; 226; 128; 168]%N (Some [0; 1; 2; 255]%N) (Some [([240; 159; 152; 128]%N, [60]%N); ([97]%N, [])]) in
+  match wrap jenc_env [85]%N [116; 92]%N m with
+  | Ok w => unwrap (jdec_env unframe_std) w = Ok ([116; 92]%N, m)
+  | Err _ => False
+  end.
+Proof. vm_compute. reflexivity. Qed.
